@@ -73,6 +73,34 @@ def impl_steps(fmt, steps):
     return "ok", outs, valid, attrs
 
 
+def cid_steps(fmt, steps):
+    """the same property rows through `Cid.add_data_format_row` (what reading a CID does)"""
+    from cutplace import errors, interface
+
+    cid = interface.Cid()
+    cid.set_location_to_caller()
+    try:
+        cid.add_data_format_row(["Format", fmt])
+    except Exception as error:  # noqa
+        return "create:" + core.classify_exception(error), None, None, None
+    outs = []
+    for name, value in steps:
+        try:
+            cid.add_data_format_row([name, value])
+            outs.append("ok")
+        except Exception as error:  # noqa
+            outs.append(core.classify_exception(error))
+    attrs = impl_attrs(cid.data_format)
+    try:
+        cid.data_format.validate()
+        valid = "1"
+    except errors.InterfaceError:
+        valid = "0"
+    except Exception as error:  # noqa
+        valid = "!" + core.classify_exception(error)
+    return "ok", outs, valid, attrs
+
+
 def check_steps(ctx, cases, tag, claim):
     """cases: list of (fmt, steps); `claim(case, model_kv, impl)` raises violations for what the statement fixes"""
     lines_ = []
@@ -82,6 +110,11 @@ def check_steps(ctx, cases, tag, claim):
     for (fmt, steps), mo in zip(cases, outs):
         itag, isteps, ivalid, iattrs = impl_steps(fmt, steps)
         case = {"format": fmt, "steps": steps, "model": mo, "impl": {"steps": isteps, "valid": ivalid, "attrs": iattrs}}
+        via_cid = cid_steps(fmt, steps)
+        if via_cid != (itag, isteps, ivalid, iattrs):
+            # a property row of a CID means what DataFormat.set_property makes of its name and value
+            ctx.violation("C11:cid-row-differs:%s" % (steps[-1][0].replace(" ", "-") if steps else "format"),
+                          "%s: rows %r through Cid.add_data_format_row give %r, through DataFormat.set_property %r" % (fmt, steps, via_cid, (itag, isteps, ivalid, iattrs)), case)
         mtag, mkv = parse_kv(mo)
         ctx.count(key=(tag, fmt, tuple(steps)), branch=tag)
         ctx.sample(case)
@@ -118,6 +151,12 @@ def run(ctx):
                 got = "ok:%d" % ord(df.item_delimiter)
             except Exception as error:  # noqa
                 got = core.classify_exception(error)
+            via = cid_steps("Delimited", [("Item delimiter", text)])
+            got_cid = ("ok:%s" % via[3].split(" item=")[1].split(" ")[0]) if via[1] == ["ok"] else via[1][0]
+            want_cid = ("ok:%s" % enc(df.item_delimiter)) if got.startswith("ok:") else got
+            if got_cid != want_cid:
+                ctx.violation("C11:cid-row-differs:item-delimiter", "item delimiter %r: through a CID row %s, through set_property %s" % (text, got_cid, got),
+                              {"spelling": sp, "code": c, "text": text})
             case = {"code": c, "spelling": sp, "text": text, "impl": got, "model": kv["model"], "legal": kv["legal"]}
             ctx.count(key=("spell", c, sp), branch="spell:%s:%s" % (sp[0], "legal" if kv["legal"] == "1" else "na"))
             ctx.sample(case)
